@@ -512,8 +512,7 @@ Proof.
   destruct (acl_allowed (ch_join ch) n); cbn [negb]; [|reflexivity].
   destruct (nmem n (ch_members ch)) eqn:Hm; [reflexivity|].
   destruct (ch_max_clients ch <=? _); [reflexivity|].
-  destruct (match alookup (nu n) (inch (st c)) with Some l => max_subs cfg <=? N.of_nat (length l) | None => false end);
-    [reflexivity|].
+  destruct (max_subs cfg <=? _); [reflexivity|].
   destruct (notify cfg "MEMBER_JOINED" _ _ _ _ _ _) as [okn c1] eqn:En. apply notify_st' in En.
   destruct okn; cbn [negb]; [|exact En].
   cbn [snd fst ok emit st with_st].
